@@ -463,9 +463,18 @@ func subjectField(subject func(e ast.Expr) bool, callerInfo, helperInfo *types.I
 }
 
 func runC07(c *Ctx) {
-	w := c.W
 	r1 := c.Rule("R1", "undo table: every persistent commit step has a guarded undo block, calling the matching undo function, in the live rollback and in the dead-transaction log replay", 25)
 	r2 := c.Rule("R2", "partial step: a step whose action performs two persistent effects must be undone by the live rollback also when only the first effect happened (guard must include the step itself)", 3)
+	r3 := c.Rule("R3", "rollback releases node-key locks on every path (pre-commit and already-committed early exits excepted) and item locks once lockTrackedItems was logged; a failed node-key lock attempt is followed by Unlock before sleeping/retrying", 5)
+	r5 := c.Rule("R5", "a Phase2Commit failure can only be undone if the priority log holds handle PRE-images: it is written before the in-place flip (shared with C08.R2)", 5)
+	r4 := c.Rule("R4", "transaction logs are removed on every terminal path: rollback -> removeLogs, cleanup -> removeLogs, log replay -> TransactionLog.Remove", 3)
+	commitUndoRules(c, r1, r2, r3, r5, r4)
+}
+
+// commitUndoRules: the undo-table rules shared by C07 (all sections) and C11 (undo table, partial
+// steps, log removal; r3/r5 empty).
+func commitUndoRules(c *Ctx, r1, r2, r3, r5, r4 string) {
+	w := c.W
 	fr := w.Fn(kTxrb)
 	gr := w.G(fr)
 	c.Analysed(fr)
@@ -616,71 +625,72 @@ func runC07(c *Ctx) {
 		}
 	}
 
-	// ---- R3 locks ----
-	r3 := c.Rule("R3", "rollback releases node-key locks on every path (pre-commit and already-committed early exits excepted) and item locks once lockTrackedItems was logged; a failed node-key lock attempt is followed by Unlock before sleeping/retrying", 5)
-	{
-		early := gr.condNodes(func(e ast.Expr) bool {
-			be, ok := e.(*ast.BinaryExpr)
-			if !ok || fieldOfSelector(infoR, be.X) != csFld {
-				return false
-			}
-			id, ok := ast.Unparen(be.Y).(*ast.Ident)
-			return ok && ((be.Op == token.EQL && id.Name == "addActivelyPersistedItem") || (be.Op == token.GTR && id.Name == "finalizeCommit"))
-		})
-		r := gr.Reach([]int{gr.Entry}, calls(kTxUnlockNodes), edgeCut(early, 1))
-		var offs []Offence
-		if r.Seen[gr.Exit] {
-			offs = append(offs, Offence{gr.Nodes[gr.Exit], r.Path(gr.Exit)})
-		}
-		c.Offences(gr, offs, r3, "rollback: node-key locks released on every path", fr.Decl.Pos(), "every path to the exit calls unlockNodesKeys", "rollback can return holding the node-key locks")
-		// unlockNodesKeys really unlocks
-		fu := w.Fn(kTxUnlockNodes)
-		gu := w.G(fu)
-		c.Analysed(fu)
-		nkFld := w.Field("common", "Transaction", "nodesKeys")
-		nilGuard := gu.condNodes(func(e ast.Expr) bool {
-			be, ok := e.(*ast.BinaryExpr)
-			return ok && be.Op == token.EQL && fieldOfSelector(fu.Pkg.TypesInfo, be.X) == nkFld && isNilLit(fu.Pkg.TypesInfo, be.Y)
-		})
-		ru := gu.Reach([]int{gu.Entry}, calls(kL2Unlock), edgeCut(nilGuard, 1))
-		offs = nil
-		if ru.Seen[gu.Exit] {
-			offs = append(offs, Offence{gu.Nodes[gu.Exit], ru.Path(gu.Exit)})
-		}
-		c.Offences(gu, offs, r3, "unlockNodesKeys: unlocks unless there are no keys", fu.Decl.Pos(), "l2Cache.Unlock on every path with non-nil keys", "unlockNodesKeys can return without unlocking")
-	}
-	// phase1Commit: failed lock attempts release before sleeping
-	{
-		f := w.Fn(kTxp1)
-		g := w.G(f)
-		c.Analysed(f)
-		n := 0
-		for _, key := range []string{kL2Lock, kL2DualLock} {
-			for _, nc := range g.callNodes(key) {
-				starts, tested := g.failStartsOfBoolErrCall(nc.n, nc.cs)
-				if !tested {
-					continue // the final DualLock re-acquire attempt returns the error directly
+	if r3 != "" {
+		// ---- R3 locks ----
+		{
+			early := gr.condNodes(func(e ast.Expr) bool {
+				be, ok := e.(*ast.BinaryExpr)
+				if !ok || fieldOfSelector(infoR, be.X) != csFld {
+					return false
 				}
-				n++
-				r := g.Reach(starts, calls(kL2Unlock), nil)
-				var offs []Offence
-				for _, x := range g.Nodes {
-					if r.Seen[x.ID] && (calls("sop.RandomSleep")(x) || (x.Block != nil && x.Block.Kind.String() == "ForLoop")) {
-						offs = append(offs, Offence{x, r.Path(x.ID)})
+				id, ok := ast.Unparen(be.Y).(*ast.Ident)
+				return ok && ((be.Op == token.EQL && id.Name == "addActivelyPersistedItem") || (be.Op == token.GTR && id.Name == "finalizeCommit"))
+			})
+			r := gr.Reach([]int{gr.Entry}, calls(kTxUnlockNodes), edgeCut(early, 1))
+			var offs []Offence
+			if r.Seen[gr.Exit] {
+				offs = append(offs, Offence{gr.Nodes[gr.Exit], r.Path(gr.Exit)})
+			}
+			c.Offences(gr, offs, r3, "rollback: node-key locks released on every path", fr.Decl.Pos(), "every path to the exit calls unlockNodesKeys", "rollback can return holding the node-key locks")
+			// unlockNodesKeys really unlocks
+			fu := w.Fn(kTxUnlockNodes)
+			gu := w.G(fu)
+			c.Analysed(fu)
+			nkFld := w.Field("common", "Transaction", "nodesKeys")
+			nilGuard := gu.condNodes(func(e ast.Expr) bool {
+				be, ok := e.(*ast.BinaryExpr)
+				return ok && be.Op == token.EQL && fieldOfSelector(fu.Pkg.TypesInfo, be.X) == nkFld && isNilLit(fu.Pkg.TypesInfo, be.Y)
+			})
+			ru := gu.Reach([]int{gu.Entry}, calls(kL2Unlock), edgeCut(nilGuard, 1))
+			offs = nil
+			if ru.Seen[gu.Exit] {
+				offs = append(offs, Offence{gu.Nodes[gu.Exit], ru.Path(gu.Exit)})
+			}
+			c.Offences(gu, offs, r3, "unlockNodesKeys: unlocks unless there are no keys", fu.Decl.Pos(), "l2Cache.Unlock on every path with non-nil keys", "unlockNodesKeys can return without unlocking")
+		}
+		// phase1Commit: failed lock attempts release before sleeping
+		{
+			f := w.Fn(kTxp1)
+			g := w.G(f)
+			c.Analysed(f)
+			n := 0
+			for _, key := range []string{kL2Lock, kL2DualLock} {
+				for _, nc := range g.callNodes(key) {
+					starts, tested := g.failStartsOfBoolErrCall(nc.n, nc.cs)
+					if !tested {
+						continue // the final DualLock re-acquire attempt returns the error directly
 					}
+					n++
+					r := g.Reach(starts, calls(kL2Unlock), nil)
+					var offs []Offence
+					for _, x := range g.Nodes {
+						if r.Seen[x.ID] && (calls("sop.RandomSleep")(x) || (x.Block != nil && x.Block.Kind.String() == "ForLoop")) {
+							offs = append(offs, Offence{x, r.Path(x.ID)})
+						}
+					}
+					c.Offences(g, offs, r3, fmt.Sprintf("phase1Commit: failed %s #%d releases before waiting", shortKey(key), ordinalOf(w, f, nc.cs)), nc.cs.Call.Pos(), "Unlock precedes the sleep / next attempt", "a failed lock attempt can sleep or retry while still holding part of the key set (hold-and-wait)")
 				}
-				c.Offences(g, offs, r3, fmt.Sprintf("phase1Commit: failed %s #%d releases before waiting", shortKey(key), ordinalOf(w, f, nc.cs)), nc.cs.Call.Pos(), "Unlock precedes the sleep / next attempt", "a failed lock attempt can sleep or retry while still holding part of the key set (hold-and-wait)")
 			}
+			c.Check(n >= 2, r3, "phase1Commit: lock attempts inventory", f.Decl.Pos(), fmt.Sprintf("%d tested lock attempts", n), fmt.Sprintf("only %d tested lock attempts found", n), nil)
 		}
-		c.Check(n >= 2, r3, "phase1Commit: lock attempts inventory", f.Decl.Pos(), fmt.Sprintf("%d tested lock attempts", n), fmt.Sprintf("only %d tested lock attempts found", n), nil)
+
 	}
+	if r5 != "" {
+		// ---- R5 shared with C08.R2 ----
+		rulePreImagesBeforeFlip(c, r5)
 
-	// ---- R5 shared with C08.R2 ----
-	r5 := c.Rule("R5", "a Phase2Commit failure can only be undone if the priority log holds handle PRE-images: it is written before the in-place flip (shared with C08.R2)", 5)
-	rulePreImagesBeforeFlip(c, r5)
-
+	}
 	// ---- R4 logs removed ----
-	r4 := c.Rule("R4", "transaction logs are removed on every terminal path: rollback -> removeLogs, cleanup -> removeLogs, log replay -> TransactionLog.Remove", 3)
 	{
 		early := gr.condNodes(func(e ast.Expr) bool {
 			be, ok := e.(*ast.BinaryExpr)
